@@ -112,9 +112,13 @@ func sharingConfigs(env *engine.Env) []fixture.Doc {
 	docs = append(docs, mk(plain, func(d fixture.Doc) {
 		d["depends"] = []any{"libc6 (>= 2.30)", "zlib1g (<< 2)", "plain"}
 		d["conflicts"] = []any{"old-pkg (<< 1.0)"}
-		d["provides"] = []any{"virt (= 1.0)"}
+		d["provides"] = []any{"virt (= 1.0)", "virt2 (>= 2.0)", "virt3 (<< 3)"}
+		d["rpm"] = map[string]any{"buildhost": "buildhost.example", "prefixes": []any{"/opt/demo/", "/srv//demo", "/usr/./local"}}
 		d["overrides"] = map[string]any{"Deb": map[string]any{"depends": []any{"mixed-case-key"}}, "rpm": map[string]any{"suggests": []any{"s"}}}
 	}))
+	// a configuration that only ONE format cannot package (an rpm-only entry lies beneath a file): the failure of that
+	// format must not reach the others
+	docs = append(docs, mk([]model.Entry{{Src: "etc/app.conf", Dst: "/opt/thing"}, {Src: "etc/empty", Dst: "/opt/thing/below", Packager: "rpm"}, {Src: "bin/app", Dst: "/usr/bin/app"}}, nil))
 	// a platform other than linux (deb, rpm and ipk take one)
 	docs = append(docs, mk(plain, func(d fixture.Doc) { d["platform"] = "freebsd"; d["arch"] = "arm64" }))
 	// everything together
